@@ -16,6 +16,7 @@ import (
 
 	"github.com/google/uuid"
 	"github.com/semafind/semadb/models"
+	"github.com/semafind/semadb/shard/index/vamana"
 	"verifharness/vh"
 )
 
@@ -78,7 +79,9 @@ func (r *Runner) Write(o Op) (ok bool) {
 	if o.Kind != "ins" {
 		r.InsOnly = false
 	}
-	if err := r.Sim.Apply(o); err != nil {
+	err := r.Sim.Apply(o)
+	hb := vamana.VerifTakeBatch() // what the index recorded about this batch (nil: it was not told anything)
+	if err != nil {
 		// every generated batch is valid; a rejected one may leave index goroutines behind
 		// (DESIGN section 8 no. 4), so the history stops here
 		r.fail("write-error:"+opTag(o), "a valid batch was rejected: "+err.Error())
@@ -96,6 +99,8 @@ func (r *Runner) Write(o Op) (ok bool) {
 	if r.Mode == "c10" {
 		r.judgeWF(o, d)
 		r.stepLine(o, d)
+		r.batchLine(o, d, hb)
+		r.docsLine(o, d, hb)
 		r.docLines(o, d)
 	} else {
 		// the same state clauses guard C03's hypothesis; reported under C10's signatures only there
